@@ -165,6 +165,12 @@ func RunSeq(t *testing.T, sc SeqCheck) {
 	if sc.Profile.ChopPct == 0 {
 		sc.Profile.ChopPct = 3
 	}
+	if sc.Profile.DebrisPct == 0 {
+		sc.Profile.DebrisPct = 4
+	}
+	if sc.Profile.RedatePct == 0 {
+		sc.Profile.RedatePct = 2
+	}
 	if p := os.Getenv("VERIF_MINIMIZE_IN"); p != "" {
 		minimizeSeq(t, sc, p)
 		return
